@@ -1,7 +1,7 @@
 From Coq Require Import ZArith Lia.
-From RsdnsModel Require Import Base GenConst GenCursor GenHeader GenSpec Cursor Names Labels Header Tracker RData Reader Writer.
+From RsdnsModel Require Import Base GenConst GenCursor GenHeader GenReader GenSpec Cursor Names Labels Header Tracker RData Reader Writer.
 From RsdnsModel.Spec Require Import WireName LinearPass RDataWire.
-From RsdnsModel.Proofs Require Import CursorSafe ListN Bits WriterLayout RecordRT RDataRT ParseSpec RecordFull TrackerRefine ReaderRefine MessageRT RDataCompressed EndToEnd.
+From RsdnsModel.Proofs Require Import CursorSafe ListN Bits WriterLayout RecordRT RDataRT ParseSpec RecordFull TrackerRefine ReaderRefine MessageRT RDataCompressed EndToEnd FieldLeaves.
 From RsdnsModel.Properties Require Import C02.
 Open Scope N_scope.
 Check (C02_header_fields : forall msg, 12 <= lenN msg ->
@@ -97,4 +97,7 @@ Check (C02_rdata_compressed_names : forall msg c p rd,
 Check (C02_rdata_compressed_example : name_in example_cname_msg 35 31 [(31, [x62]); (12, [x61])] 35 /\
   exists m, read_rdata example_cname_msg T_CNAME 4 = Some m /\
             m (c_with_pos example_cname_msg 31) = (c_with_pos example_cname_msg 35, Ok (RD_Name T_CNAME [x62; x2e; x61; x2e]))).
-Print Assumptions C02_header_fields. Print Assumptions C02_flags. Print Assumptions C02_opt_fields. Print Assumptions C02_opt_do. Print Assumptions C02_a_record_roundtrip_plain. Print Assumptions C02_fixed_part_roundtrip. Print Assumptions C02_rdata_roundtrip_all_types. Print Assumptions C02_record_roundtrip. Print Assumptions C02_standing_items. Print Assumptions C02_whole_message_parsed. Print Assumptions C02_standing_record_decodes. Print Assumptions C02_standing_record_bytes. Print Assumptions C02_whole_message_example. Print Assumptions C02_reader_record_end_to_end. Print Assumptions C02_rdata_compressed_names. Print Assumptions C02_rdata_compressed_example.
+Check (C02_fields_are_the_words_read : forall w,
+  (marker_field_type w = w /\ marker_field_class w = w /\ marker_field_ttl w = w /\ marker_field_rdlen w = w) /\
+  (iter_field_type w = w /\ iter_field_class w = w /\ iter_field_ttl w = w /\ iter_field_rdlen w = w)).
+Print Assumptions C02_header_fields. Print Assumptions C02_flags. Print Assumptions C02_opt_fields. Print Assumptions C02_opt_do. Print Assumptions C02_a_record_roundtrip_plain. Print Assumptions C02_fixed_part_roundtrip. Print Assumptions C02_rdata_roundtrip_all_types. Print Assumptions C02_record_roundtrip. Print Assumptions C02_standing_items. Print Assumptions C02_whole_message_parsed. Print Assumptions C02_standing_record_decodes. Print Assumptions C02_standing_record_bytes. Print Assumptions C02_whole_message_example. Print Assumptions C02_reader_record_end_to_end. Print Assumptions C02_rdata_compressed_names. Print Assumptions C02_rdata_compressed_example. Print Assumptions C02_fields_are_the_words_read.
